@@ -8,7 +8,7 @@ import logging, xml.dom
 CLASS = {"bs": "\\", "dq": '"', "sq": "'", "sl": "/", "st": "*", "mi": "-", "pl": "+", "dot": ".", "pc": "%", "ha": "#", "at": "@", "ex": "!",
          "lt": "<", "gt": ">", "eq": "=", "ti": "~", "pi": "|", "ca": "^", "do": "$", "qm": "?", "us": "_", "lp": "(", "rp": ")", "lb": "{",
          "rb": "}", "ls": "[", "rs": "]", "sc": ";", "co": ":", "cm": ",", "dig": "1", "hexl": "a", "let": "g", "u": "u", "r": "r", "l": "l",
-         "sp": " ", "tab": "\t", "lf": "\n", "cr": "\r", "ff": "\f", "na": "\u00e9", "ctl": "\x01", "d6": "6", "d1": "1", "g": "g", "a": "a", "nbsp": "\u00a0", "vt": "\x0b"}
+         "sp": " ", "tab": "\t", "lf": "\n", "cr": "\r", "ff": "\f", "na": "\u00e9", "ctl": "\x01", "d6": "6", "d1": "1", "g": "g", "a": "a", "nbsp": "\u00a0", "vt": "\x0b", "as": "\U00010000"}
 SEP = {"none": "", "sp": " ", "tab": "\t", "lf": "\n", "crlf": "\r\n", "ff": "\f", "comment": "/**/"}
 
 
@@ -64,6 +64,11 @@ def run_row(item):
 def errorpos(r):
     """a raising parser on a sheet with one offending token at a known position"""
     cssutils.log.setLevel(logging.FATAL)
+    if r.get("before"):
+        try:
+            cssutils.CSSParser(raiseExceptions=True).parseString(r["before"])     # an earlier report, about a token
+        except Exception:
+            pass
     text = r["text"]
     raised, line, col, ml, mc = "none", 0, 0, 0, 0
     try:
